@@ -453,29 +453,46 @@ Qed.
 Lemma nth_repeat' {A} (d : A) n i : nth i (repeat d n) d = d.
 Proof. revert i. induction n as [|n IH]; intros [|i]; simpl; auto. Qed.
 
-Theorem np_align_length n a : length (np_align n a) = n.
-Proof.
-  unfold np_align, cell in *. destruct (Nat.ltb n (length a)) eqn:E.
-  - apply Nat.ltb_lt in E. rewrite skipn_length. lia.
-  - apply Nat.ltb_ge in E. rewrite app_length, repeat_length. lia.
-Qed.
+Section NPG.
+  Context {A : Type}.
+  Variable pad : A.
+  Theorem np_align_g_length n (a : list A) : length (np_align_g pad n a) = n.
+  Proof.
+    unfold np_align_g. destruct (Nat.ltb n (length a)) eqn:E.
+    - apply Nat.ltb_lt in E. rewrite skipn_length. lia.
+    - apply Nat.ltb_ge in E. rewrite app_length, repeat_length. lia.
+  Qed.
+  (* counted from the end, the k-th row of the result is the k-th row of the input *)
+  Theorem np_align_g_end n (a : list A) k : (k < n)%nat -> (k < length a)%nat ->
+    nth (n - 1 - k) (np_align_g pad n a) pad = nth (length a - 1 - k) a pad.
+  Proof.
+    intros Hn Ha. unfold np_align_g. destruct (Nat.ltb n (length a)) eqn:E.
+    - apply Nat.ltb_lt in E. rewrite nth_skipn'. f_equal. lia.
+    - apply Nat.ltb_ge in E. rewrite app_nth2; rewrite repeat_length; [f_equal; lia | lia].
+  Qed.
+  (* a shorter array is padded in front *)
+  Theorem np_align_g_front n (a : list A) j : (j < n - length a)%nat -> nth j (np_align_g pad n a) pad = pad.
+  Proof.
+    intros H. unfold np_align_g. destruct (Nat.ltb n (length a)) eqn:E.
+    - apply Nat.ltb_lt in E. lia.
+    - rewrite app_nth1 by (rewrite repeat_length; exact H). apply nth_repeat'.
+  Qed.
+  (* every row of the result is an input row or the padding row: columns are untouched *)
+  Theorem np_align_g_rows n (a : list A) r : In r (np_align_g pad n a) -> In r a \/ r = pad.
+  Proof.
+    unfold np_align_g. destruct (Nat.ltb n (length a)).
+    - intros H. left. rewrite <- (firstn_skipn (length a - n) a). apply in_or_app. right. exact H.
+    - intros H. apply in_app_or in H. destruct H as [H|H]; [right; apply (repeat_spec _ _ _ H) | left; exact H].
+  Qed.
+End NPG.
 
-(* counted from the end, the k-th cell of the result is the k-th cell of the input *)
+Theorem np_align_length n a : length (np_align n a) = n.
+Proof. apply np_align_g_length. Qed.
 Theorem np_align_end n a k : (k < n)%nat -> (k < length a)%nat ->
   nth (n - 1 - k) (np_align n a) None = nth (length a - 1 - k) a None.
-Proof.
-  intros Hn Ha. unfold np_align, cell in *. destruct (Nat.ltb n (length a)) eqn:E.
-  - apply Nat.ltb_lt in E. rewrite nth_skipn'. f_equal. lia.
-  - apply Nat.ltb_ge in E. rewrite app_nth2; rewrite repeat_length; [f_equal; lia | lia].
-Qed.
-
-(* a shorter array is NaN in front *)
+Proof. apply (np_align_g_end (@None Z)). Qed.
 Theorem np_align_front n a j : (j < n - length a)%nat -> nth j (np_align n a) None = None.
-Proof.
-  intros H. unfold np_align, cell in *. destruct (Nat.ltb n (length a)) eqn:E.
-  - apply Nat.ltb_lt in E. lia.
-  - rewrite app_nth1 by (rewrite repeat_length; exact H). apply nth_repeat'.
-Qed.
+Proof. apply (np_align_g_front (@None Z)). Qed.
 
 Lemma arr_ffill_length a : forall prev, length (arr_ffill prev a) = length a.
 Proof. induction a as [|c a IH]; intros prev; simpl; [reflexivity | rewrite IH; reflexivity]. Qed.
@@ -508,6 +525,64 @@ Proof.
   destruct j as [|j]; simpl.
   - destruct c; [reflexivity|]. destruct (arr_bfill a); reflexivity.
   - apply IH. lia.
+Qed.
+
+(* ---- 2-d arrays: the fill works column by column, and keeps the shape *)
+Definition colj (j : nat) (rows : list (list cell)) : list cell := map (fun r => nth j r None) rows.
+
+Lemma nth_keep_or j (r prev : list cell) : length r = length prev ->
+  nth j (map keep_or (combine r prev)) None = keep_or (nth j r None, nth j prev None).
+Proof.
+  intros H. change (@None Z) with (keep_or (@None Z, @None Z)) at 1.
+  rewrite map_nth. rewrite combine_nth by exact H. reflexivity.
+Qed.
+
+Lemma keep_or_length (r prev : list cell) : length r = length prev -> length (map keep_or (combine r prev)) = length prev.
+Proof. intros H. rewrite map_length, combine_length. lia. Qed.
+
+Theorem arr2_ffill_column j rows : forall prev, Forall (fun r => length r = length prev) rows ->
+  colj j (arr2_ffill prev rows) = arr_ffill (nth j prev None) (colj j rows) /\
+  Forall (fun r => length r = length prev) (arr2_ffill prev rows).
+Proof.
+  induction rows as [|r rows IH]; intros prev HF; simpl; [split; [reflexivity | constructor]|].
+  inversion HF as [|? ? Hr Hrest]; subst.
+  assert (Hl : length (map keep_or (combine r prev)) = length prev) by (apply keep_or_length; exact Hr).
+  destruct (IH (map keep_or (combine r prev))) as [IH1 IH2].
+  { rewrite Hl. exact Hrest. }
+  rewrite Hl in IH2. split; [|constructor; assumption].
+  pose proof (nth_keep_or j r prev Hr) as Hk.
+  change (colj j (map keep_or (combine r prev) :: arr2_ffill (map keep_or (combine r prev)) rows))
+    with (nth j (map keep_or (combine r prev)) None :: colj j (arr2_ffill (map keep_or (combine r prev)) rows)).
+  rewrite IH1. unfold cell in *. repeat rewrite Hk. change (colj j (r :: rows)) with (nth j r None :: colj j rows).
+  unfold keep_or. cbn [fst snd arr_ffill]. destruct (nth j r None); reflexivity.
+Qed.
+
+Theorem arr2_bfill_column j k rows : Forall (fun r => length r = k) rows ->
+  colj j (arr2_bfill k rows) = arr_bfill (colj j rows) /\ Forall (fun r => length r = k) (arr2_bfill k rows).
+Proof.
+  induction rows as [|r rows IH]; intros HF; simpl; [split; [reflexivity | constructor]|].
+  inversion HF as [|? ? Hr Hrest]; subst. destruct (IH Hrest) as [IH1 IH2].
+  assert (Hh : length (hd (repeat None (length r)) (arr2_bfill (length r) rows)) = length r).
+  { destruct (arr2_bfill (length r) rows) as [|x xs]; simpl; [apply repeat_length|]. inversion IH2; assumption. }
+  split.
+  - pose proof (nth_keep_or j r _ (eq_sym Hh)) as Hk.
+    unfold cell in *. rewrite Hk. rewrite <- IH1. unfold keep_or. cbn [fst snd].
+    destruct (nth j r None) eqn:E; [reflexivity|]. f_equal.
+    destruct (arr2_bfill (length r) rows) as [|x xs]; simpl; [|reflexivity].
+    clear. generalize (length r). intros n. revert j. induction n as [|n IHn]; intros [|j]; simpl; auto.
+  - constructor; [|exact IH2]. rewrite keep_or_length by (symmetry; exact Hh). exact Hh.
+Qed.
+
+Theorem arr2_fill_shape m k rows : Forall (fun r => length r = k) rows ->
+  length (arr2_fill m k rows) = length rows /\ Forall (fun r => length r = k) (arr2_fill m k rows).
+Proof.
+  intros HF. destruct m; simpl.
+  - split; [reflexivity | exact HF].
+  - assert (HF' : Forall (fun r => length r = length (repeat (@None Z) k)) rows) by (rewrite repeat_length; exact HF).
+    destruct (arr2_ffill_column 0 rows _ HF') as [_ H2]. rewrite repeat_length in H2. split; [|exact H2].
+    clear. generalize (repeat (@None Z) k). induction rows as [|r rows IH]; intros p; simpl; [reflexivity | rewrite IH; reflexivity].
+  - destruct (arr2_bfill_column 0 k rows HF) as [_ H2]. split; [|exact H2].
+    clear. induction rows as [|r rows IH]; simpl; [reflexivity | rewrite IH; reflexivity].
 Qed.
 
 Lemma fold_min_spec rest : forall l0, (forall l, In l (l0 :: rest) -> (fold_left Nat.min rest l0 <= l)%nat) /\ In (fold_left Nat.min rest l0) (l0 :: rest).
